@@ -516,6 +516,7 @@ pub fn c05() -> bool {
     bad
 }
 
+
 pub fn run(id: &str) -> Option<bool> {
     Some(match id {
         "d2" => d2(),
